@@ -361,3 +361,25 @@ def family_methods(fam, names):
             if m and m["function"].get("body") is not None:
                 out.append((cname, mname, m["function"]))
     return out
+
+
+def index_signature_field(fam, cname):
+    """name of the field that holds the class's index signatures: annotated as an array of {key: Runtype; value: Runtype}
+    records (whatever the field is called)"""
+    for fname, (owner, ann) in fam.all_fields(cname).items():
+        if ann is None:
+            continue
+        t = ann
+        elem = None
+        if t.get("type") == "TsArrayType":
+            elem = t["elemType"]
+        elif t.get("type") == "TsTypeReference" and t["typeName"].get("value") == "Array" and t.get("typeParams"):
+            elem = t["typeParams"]["params"][0]
+        if elem is not None and elem.get("type") == "TsTypeLiteral":
+            members = {}
+            for mbr in elem["members"]:
+                if mbr["type"] == "TsPropertySignature" and mbr["key"].get("type") == "Identifier":
+                    members[mbr["key"]["value"]] = tsast.type_str((mbr.get("typeAnnotation") or {}).get("typeAnnotation"))
+            if members.get("key") == "Runtype" and members.get("value") == "Runtype":
+                return fname
+    return None
